@@ -222,7 +222,7 @@ def include_chains(rng, quick):
     for k in (1, 2, 3, 4):
         for j in range(1, k + 1):
             for after in (False, True):
-                for variant in range(3 if quick else 8):
+                for variant in range(4 if quick else 8):
                     names = ["main.jst"] + [("d%d/" % i if (i + variant) % 2 else "") + "f%d.jst" % i for i in range(1, k + 1)]
                     if variant == 2:
                         # every included file has the SAME base name, one directory deeper each time
@@ -249,7 +249,10 @@ def include_chains(rng, quick):
                             fl = body.index("TYPE @dup", 1 if i == 0 else 0) + 1
                         if inc:
                             inc_line[i] = body.index(inc[0]) + 1
-                        files.append((names[i], ("\n".join(body) + "\n").encode()))
+                        # line ends: LF, but CR alone in variant 1 and CR LF in variant 3 (the lines of an include chain are counted
+                        # in the INCLUDING files)
+                        nl_ = {1: "\r", 3: "\r\n"}.get(variant, "\n")
+                        files.append((names[i], (nl_.join(body) + nl_).encode()))
                     if not after and j < k:
                         # the fault stands BEFORE this file's INCLUDE: the first @dup is still main's, the diagnostic is here
                         pass
